@@ -747,6 +747,7 @@ Section ReplyObject.
     match o with
     | ROMsg v => ns_head v = true /\ valid_text v
     | ROEsc v => valid_text v
+    | ROCopy o => reply_inv o
     | _ => True
     end.
 
@@ -797,7 +798,7 @@ Section ReplyObject.
   Lemma rop_step_inv : forall r o, reply_inv r -> rop_ok o -> reply_inv (rop_step r o).
   Proof.
     intros r o Hi Ho. unfold Reply.rop_step, Reply.rop_apply.
-    destruct o as [c|v|v|].
+    destruct o as [c|v|v| |o|].
     - unfold Reply.code_setter. destruct (Reply.ctor_code_ok udigit c); exact Hi.
     - rewrite set_message_chk_total. destruct Ho as [Hn Hv]. apply set_message_inv; assumption.
     - unfold Reply.esc_setter. destruct Hi as [Hn [Hv He]]. destruct v as [|c v'].
@@ -810,6 +811,8 @@ Section ReplyObject.
         apply Forall_app in Hv4. destruct Hv4 as [Vd _].
         split; [exact Hn|]. split; [exact Hv|]. cbn [r_esc esc_wf]. repeat split; assumption.
     - destruct Hi as [Hn [Hv He]]. split; [exact Hn|]. split; [exact Hv|exact I].
+    - exact Ho.
+    - exact Hi.
   Qed.
 
   Lemma rops_inv : forall ops r0, Forall rop_ok ops -> reply_inv r0 -> reply_inv (fold_left rop_step ops r0).
@@ -869,6 +872,30 @@ Section ReplyObject.
     - assert (ET : get_message (mkReply [k; d2; d3] e m) = m).
       { unfold get_message, get_esc, code_class. cbn [r_code r_esc r_msg hd]. rewrite Hk. reflexivity. }
       rewrite ET. split; [apply getmsg_non245; exact Hk|]. split; assumption.
+  Qed.
+
+  (* the objects written at the sends: each is the state reached by the operations before it *)
+  Lemma sent_app : forall pre post r0,
+    Reply.rops_sent udigit uspace r0 (pre ++ post) =
+    Reply.rops_sent udigit uspace r0 pre ++ Reply.rops_sent udigit uspace (fold_left rop_step pre r0) post.
+  Proof.
+    induction pre as [|o pre IH]; intros post r0; [reflexivity|].
+    cbn [app Reply.rops_sent fold_left]. rewrite IH. rewrite app_assoc. reflexivity.
+  Qed.
+
+  Lemma sent_at : forall pre post r0,
+    Reply.rops_sent udigit uspace r0 (pre ++ ROSend :: post) =
+    Reply.rops_sent udigit uspace r0 pre ++ fold_left rop_step pre r0 ::
+    Reply.rops_sent udigit uspace (fold_left rop_step pre r0) post.
+  Proof. intros pre post r0. rewrite sent_app. reflexivity. Qed.
+
+  Lemma sent_inv : forall ops r0, Forall rop_ok ops -> reply_inv r0 ->
+    Forall reply_inv (Reply.rops_sent udigit uspace r0 ops).
+  Proof.
+    induction ops as [|o ops IH]; intros r0 Hf Hi; [constructor|].
+    inversion Hf; subst. cbn [Reply.rops_sent]. apply Forall_app. split.
+    - destruct o; try constructor; [exact Hi|constructor].
+    - apply IH; [assumption|]. apply rop_step_inv; assumption.
   Qed.
 
   (* after ANY sequence of setter operations: the shown ESC has the class of the current
@@ -1054,6 +1081,65 @@ Section Sequence.
   Qed.
 End Sequence.
 
+(* ------------------------------------------------------------------ sends and copies interleaved *)
+Section ReplySends.
+  Variable udigit uspace : N -> bool.
+  Hypothesis Hd46 : udigit 46 = false.
+  Hypothesis Hd48 : udigit 48 = true.
+  Hypothesis Hs32 : uspace 32 = true.
+  Hypothesis Hs10 : uspace 10 = true.
+  Hypothesis Hs13 : uspace 13 = true.
+  Hypothesis Hdisj : forall c, udigit c = true -> uspace c = false.
+  Hypothesis Hd245 : forall k, is245 k = true -> udigit k = true.
+
+  (* an object that can be written and whose text the receiving side can show unchanged *)
+  Definition sendable (r : reply) : Prop := code_2xx_5xx (r_code r) /\ r_esc r <> EscFalse.
+  (* what the receiving side is to show for a written object *)
+  Definition shown_of (r : reply) : list N * list N := (r_code r, norm (get_message r)).
+
+  Lemma written_roundtrip : forall rs t buf chunks,
+    Forall (reply_inv udigit uspace) rs -> Forall sendable rs -> nonempty_chunks chunks ->
+    buf ++ concat chunks = concat (map wire_of rs) ++ t ->
+    exists b' ch', recv_n udigit uspace (length rs) buf chunks = Some (map shown_of rs, b', ch') /\
+                   b' ++ concat ch' = t.
+  Proof.
+    intros rs t buf chunks Hi Hsd Hne Hs.
+    set (cvs := map (fun r => (r_code r, get_message r)) rs).
+    assert (Hall : forall r, In r rs ->
+              get_message (new_reply udigit uspace (r_code r) (get_message r)) = get_message r /\
+              ns_head uspace (get_message r) = true /\ valid_text (get_message r)).
+    { intros r Hin. rewrite Forall_forall in Hi, Hsd. destruct (Hsd r Hin) as [Hc Hf].
+      exact (shown_fix udigit uspace Hd46 Hd48 Hs32 Hdisj Hd245 r (Hi r Hin) Hc Hf). }
+    assert (Hg : Forall (good_reply uspace) cvs).
+    { subst cvs. rewrite Forall_forall. intros cv Hin. apply in_map_iff in Hin. destruct Hin as [r [E Hin]]. subst cv.
+      rewrite Forall_forall in Hsd. destruct (Hsd r Hin) as [Hc _]. destruct (Hall r Hin) as [_ [Hn Hv]].
+      split; [exact Hc|]. split; assumption. }
+    assert (Hw : map (wire1 udigit uspace) cvs = map wire_of rs).
+    { subst cvs. rewrite map_map. apply map_ext_in. intros r Hin. destruct (Hall r Hin) as [Hfix _].
+      unfold wire1, wire_of. cbn [fst snd]. rewrite new_reply_code, Hfix. reflexivity. }
+    assert (Hsh : map (shown udigit uspace) cvs = map shown_of rs).
+    { subst cvs. rewrite map_map. apply map_ext_in. intros r Hin. destruct (Hall r Hin) as [Hfix _].
+      unfold shown, shown_of. cbn [fst snd]. rewrite Hfix. reflexivity. }
+    rewrite <- Hw in Hs.
+    destruct (sequence_roundtrip udigit uspace Hd46 Hd48 Hs32 Hs10 Hs13 Hdisj cvs t buf chunks Hg Hne Hs) as [b' [ch' [R1 R2]]].
+    exists b', ch'. split; [|exact R2]. rewrite <- Hsh. subst cvs. rewrite map_length in R1. exact R1.
+  Qed.
+
+  (* operations, sends and copies interleaved in any way: everything written is read back,
+     in order, as the code and text the object had at the moment of each send *)
+  Lemma sends_roundtrip : forall ops t buf chunks,
+    Forall (rop_ok udigit uspace) ops ->
+    Forall sendable (rops_sent udigit uspace fresh_reply ops) -> nonempty_chunks chunks ->
+    buf ++ concat chunks = rops_wire udigit uspace ops ++ t ->
+    exists b' ch',
+      recv_n udigit uspace (length (rops_sent udigit uspace fresh_reply ops)) buf chunks
+      = Some (map shown_of (rops_sent udigit uspace fresh_reply ops), b', ch') /\ b' ++ concat ch' = t.
+  Proof.
+    intros ops t buf chunks Hok Hsd Hne Hs. apply written_roundtrip; try assumption.
+    apply sent_inv; [exact Hd46|exact Hok|apply fresh_inv].
+  Qed.
+End ReplySends.
+
 (* Examples for the setter operations (ASCII classes): the handler pattern
    Reply('250', '2.1.5 Ok') then reply.code = '550' shows 5.1.5; message first, code
    afterwards; a refused code / ESC leaves the object as it was.  The hypotheses of
@@ -1073,4 +1159,10 @@ Proof. vm_compute. split; reflexivity. Qed.
 Example ops_refused_setters :      (* code "650" and ESC "2.1000.1" are refused: nothing changes *)
   rops_run adigit aspace [ROCode [50;53;48]; ROEsc [50;46;51;46;52]; ROCode [54;53;48]; ROEsc [50;46;49;48;48;48;46;49]]
   = mkReply [50;53;48] (EscSome 50 [51] [52]) [].
+Proof. vm_compute. reflexivity. Qed.
+Example ops_send_copy_send :      (* Reply('250', 'Ok'); send; copy(Reply('503', '5.5.1 Bad')); send: the second write is the 503 *)
+  map shown_of (rops_sent adigit aspace fresh_reply
+     [ROCode [50;53;48]; ROMsg [79;107]; ROSend;
+      ROCopy (rops_run adigit aspace [ROCode [53;48;51]; ROMsg [53;46;53;46;49;32;66;97;100]]); ROSend])
+  = [([50;53;48], [50;46;48;46;48;32;79;107]); ([53;48;51], [53;46;53;46;49;32;66;97;100])].
 Proof. vm_compute. reflexivity. Qed.
